@@ -16,11 +16,13 @@ try:
     env = dict(os.environ, PYTHONPATH=wt)
     shutil.copy(os.path.join(src, "demo.py"), os.path.join(wt, "_demo.py"))
     r0 = sh("cd %s && /venv/bin/python _demo.py" % wt, env=env, timeout=600)
-    res["demo_without_patch_rc"] = r0.returncode
+    # two demo conventions: exit code (0 holds / non-zero broken), or exit 0 with a line HOLDS / BROKEN: ...
+    by_text = "HOLDS" in r0.stdout
+    res["demo_without_patch_rc"] = r0.returncode if not by_text else (0 if "BROKEN" not in r0.stdout else 1)
     ra = sh("git -C %s apply %s" % (wt, os.path.join(src, "patch.diff")))
     res["patch_applies"] = ra.returncode == 0
     r1 = sh("cd %s && /venv/bin/python _demo.py" % wt, env=env, timeout=600)
-    res["demo_with_patch_rc"] = r1.returncode
+    res["demo_with_patch_rc"] = r1.returncode if not by_text else (1 if "BROKEN" in r1.stdout else 0)
     res["demo_with_patch_tail"] = (r1.stdout + r1.stderr)[-400:]
     jx = os.path.join(wt, "_junit.xml")
     sh("cd %s && /venv/bin/python -m pytest -q -p no:cacheprovider --timeout=900 --continue-on-collection-errors --junitxml=%s tests" % (wt, jx), timeout=1500)
@@ -30,7 +32,7 @@ try:
         if not any(c.tag in ("failure", "error", "skipped") for c in tc):
             ok.add(tc.get("classname") + "::" + tc.get("name"))
     res["baseline_missing_with_patch"] = sorted(base - ok)
-    res["confirmed"] = bool(res["patch_applies"] and r0.returncode == 0 and r1.returncode != 0 and not res["baseline_missing_with_patch"])
+    res["confirmed"] = bool(res["patch_applies"] and res["demo_without_patch_rc"] == 0 and res["demo_with_patch_rc"] != 0 and not res["baseline_missing_with_patch"])
 finally:
     sh("git -C /repo worktree remove --force %s" % wt)
     shutil.rmtree(wt, ignore_errors=True)
@@ -41,6 +43,8 @@ if res.get("confirmed"):
         if os.path.exists(os.path.join(src, f)):
             shutil.copy(os.path.join(src, f), os.path.join(dst, f))
     notes = open(os.path.join(src, "notes.md")).read() if os.path.exists(os.path.join(src, "notes.md")) else ""
+    if not notes and os.path.exists(os.path.join(src, "meta.json")):
+        notes = json.load(open(os.path.join(src, "meta.json"))).get("summary", "")
     meta = dict(property=pid, breaks=pid, needs_to_manifest=notes[:1500],
                 confirmed_by="tools/confirm_seed.py: demo exit 0 on HEAD, patch applies, demo exit %d with patch, all 216 baseline tests pass with patch" % res["demo_with_patch_rc"],
                 what_was_run=["/venv/bin/python demo.py (clean worktree)", "git apply patch.diff", "/venv/bin/python demo.py (patched)",
